@@ -687,6 +687,25 @@ void convert_float(char const* desc)
             t.violation(cls, o, fstr(a), exp_str(x, TG::id), outcome_str(o, got.str()), nt);
         }
     }
+    // NaN has no exact result, so C06 says nothing about it; C07 does (every operand value): only the event kind is judged
+    for (F a : {std::numeric_limits<F>::quiet_NaN(), -std::numeric_limits<F>::quiet_NaN()}) {
+        if (t.closed) break;
+        X got;
+        Outcome o = guarded([&] {
+            if constexpr (EntryPoint == E_OPERATE) {
+                auto r = cnl::convert<Tag, D>{}(a);
+                got = X::of(r);
+            } else {
+                cnl::overflow_integer<D, Tag> r{a};
+                got = X::of(cnl::_impl::to_rep(r));
+            }
+        });
+        if (!is_c07_event(o, TG::id)) {
+            t.held(o, true);
+            t.classes[o.kind == VALUE ? "nan_source_value(info)" : "nan_source_signalled(info)"]++;
+        } else
+            t.violation(c07_class(o) + ":nan_source", o, std::signbit(a) ? "-nan" : "nan", "a value or the tag's own signal (no undefined operation)", outcome_str(o, got.str()), true);
+    }
     t.emit();
 }
 
